@@ -175,9 +175,11 @@ def run(ctx):
         tally_oracle(ctx, case, None, {})
         ctx.count("tally-multicore-run")
     # paired-end with worker processes: adapters for R2 only, for both reads, for R1 only
-    for _ in range(ctx.scale(6, 60)):
+    for k in range(ctx.scale(8, 60)):
         ads2 = rng.sample([("-A", "b0=AAAGGGCCC"), ("-G", "b1=GATTACAGA"), ("-B", "b2=TTAGGCATC")], rng.randint(1, 3))
-        ads1 = rng.sample([("-a", "a0=CCGGTTAAC"), ("-g", "a1=TGGAATTCTC")], rng.choice([0, 0, 1, 2]))
+        # every other case: adapters for R2 only (no R1 statistics at all), always with several worker processes and several chunks
+        r2_only = k % 2 == 0
+        ads1 = [] if r2_only else rng.sample([("-a", "a0=CCGGTTAAC"), ("-g", "a1=TGGAATTCTC")], rng.choice([0, 1, 2]))
         argv = ["--no-index"] + [t for fl, sp in ads1 + ads2 for t in (fl, sp)]
         if rng.random() < 0.4:
             argv += ["--times", "2"]
@@ -194,7 +196,7 @@ def run(ctx):
             r2.append((f"r{i}", b, "I" * len(b)))
         size = sum(len(n) + 2 * len(s_) + 6 for n, s_, _ in r1)
         case = dict(argv=argv, paired=True, reads1=r1, reads2=r2, with_qual=True, interleaved_in=False,
-                    cores=rng.choice([1, 2, 3, 4]), buffer_size=max(200, size // rng.randint(3, 6)))
+                    cores=rng.choice([2, 3, 4]) if r2_only else rng.choice([1, 2, 3, 4]), buffer_size=max(200, size // rng.randint(4, 8)))
         paired_r2_tally(ctx, case)
         ctx.count("tally-paired-r2-run")
 
